@@ -17,6 +17,117 @@ Theorem c19_split_guards : forall total epochs,
 Proof. intros. split; [apply split_small|apply split_zero_epochs]. Qed.
 Print Assumptions c19_split_guards.
 
+(* each epoch pays out at most that epoch's allocation: whatever the farming module calculates
+   ([calc] is arbitrary: every set of farmers, every pool configuration, every oracle price),
+   what the receivers get in one trigger is at most what is booked as distributed, which is at
+   most the allocation of the epoch being triggered, which fits in the undistributed remainder;
+   the custody balance falls by exactly what was received; nothing else of the record changes *)
+Theorem c19_epoch_cap : forall now calc bal g g' bal' paid,
+  trigger now calc bal g = Ok (g', bal', paid) ->
+  0 <= pay_total paid <= g_distributed g' - g_distributed g /\
+  g_distributed g' - g_distributed g <= (if g_triggered g' =? g_triggered g then 0 else epoch_allocation g) /\
+  (g_triggered g' <> g_triggered g ->
+     g_triggered g' = g_triggered g + 1 /\ epoch_allocation g <= g_deposit g - g_distributed g /\
+     g_triggered g <> g_total g /\ g_active g = true /\ g_start g <= now) /\
+  bal' = bal - pay_total paid /\ (0 <= bal -> 0 <= bal') /\ g_deposit g' = g_deposit g /\ g_total g' = g_total g.
+Proof.
+  intros now calc bal g g' bal' paid E.
+  pose proof (trigger_spec _ _ _ _ _ _ _ E) as (D1 & D2 & D3 & D4 & D5 & D6 & D7). cbv zeta in *.
+  destruct D7 as (P1 & P2 & P3 & [(A & B & C)|(A & B & C & D & F)]).
+  - rewrite A, Z.eqb_refl. repeat split; try lia.
+  - destruct (Z.eqb_spec (g_triggered g') (g_triggered g)); [lia|]. repeat split; try lia; tauto.
+Qed.
+Print Assumptions c19_epoch_cap.
+
+(* the same for a swap-fee gauge: the epoch's allocation is the deposit it has accumulated; it
+   books at most that; outside class C19-F2 what is paid is booked *)
+Theorem c19_epoch_cap_swapfee : forall calc recv bal g g' bal' paid,
+  g_swap g = true -> 0 <= g_deposit g -> trigger_swap calc recv bal g = Ok (g', bal', paid) ->
+  kf_C19_2 calc recv g = false ->
+  0 <= pay_total paid <= g_distributed g' - g_distributed g /\
+  g_distributed g' - g_distributed g <= g_deposit g /\
+  ((g' = g /\ bal' = bal) \/
+   exists r, recv = Ok r /\ g_triggered g' = g_triggered g + 1 /\
+             g_deposit g' = g_deposit g - (g_distributed g' - g_distributed g) + r /\ bal' = bal - pay_total paid + r).
+Proof.
+  intros calc recv bal g g' bal' paid Hs Hd E Hk.
+  apply trigger_swap_spec in E. destruct E as [(E1 & B & C & B' & D)|(tot & r & E1 & E2 & C & D & F & G & G')].
+  - subst g'. destruct D as [D|[D|D]]; [|congruence|congruence]. split; [lia|]. split; [lia|]. left. split; [reflexivity|lia].
+  - subst g' recv. cbn [g_swap_paid g_distributed g_deposit g_triggered]. split; [lia|]. split; [lia|]. right. exists r.
+    repeat split; lia.
+Qed.
+Print Assumptions c19_epoch_cap_swapfee.
+
+(* the cumulative amount booked as distributed (an upper bound of what was paid) never exceeds the
+   deposit, for every deposit-funded gauge, after EVERY finite history (no class excluded) of gauge
+   and program creations, BeginBlockers at any times with any environment (so: skipped epochs,
+   repeated triggers, triggers before the start time, failing farming calculations, other gauges
+   and programs misbehaving) and other credits; failed steps change nothing *)
+Theorem c19_cumulative : forall ops g, In g (r_gauges (rrun rinit ops)) -> g_swap g = false ->
+  0 <= g_distributed g <= g_deposit g.
+Proof.
+  intros ops g Hin Hs. pose proof (rrun_ginvr ops rinit ltac:(constructor)) as HG.
+  rewrite Forall_forall in HG. exact (HG g Hin Hs).
+Qed.
+Print Assumptions c19_cumulative.
+
+(* the whole life of one gauge, creation -> every epoch -> exhaustion: after ANY sequence of trigger
+   attempts (any times, any farming calculations) what the receivers got in total is at most what
+   is booked, which is at most the sum of the allocations of the epochs triggered so far, which is
+   at most the deposit; at most n epochs are triggered; custody fell by exactly what was received *)
+Theorem c19_gauge_life : forall dep n start dur denom sp evs bal0,
+  1 <= n -> n <= dep -> split dep n = Ok sp -> 0 <= bal0 ->
+  let '(g, bal, acc) := fold_left life_step evs (fresh_gauge dep n start dur denom, bal0, 0) in
+  0 <= acc <= g_distributed g /\ g_distributed g <= alloc_sum sp (g_triggered g) /\
+  alloc_sum sp (g_triggered g) <= dep /\ 0 <= g_triggered g <= n /\ bal = bal0 - acc /\ g_deposit g = dep.
+Proof. exact gauge_life. Qed.
+Print Assumptions c19_gauge_life.
+
+(* an exhausted gauge pays nothing more *)
+Theorem c19_exhausted : forall now calc bal g g' bal' paid, g_triggered g = g_total g ->
+  trigger now calc bal g = Ok (g', bal', paid) ->
+  paid = [] /\ bal' = bal /\ g_distributed g' = g_distributed g /\ g_triggered g' = g_triggered g.
+Proof. exact trigger_exhausted. Qed.
+Print Assumptions c19_exhausted.
+
+(* custody: after every history (several gauges incl. swap-fee gauges, several external locker /
+   vault programs, several denoms, any block times, any environment) that meets neither class
+   C19-F2 nor C19-F3, the rewards module account holds, in every denom, at least the remainders of
+   ALL gauges plus the available rewards of ALL programs (hence of the active ones: the predicate
+   the harness evaluates on the implementation holds on the model) *)
+Theorem c19_custody : forall ops d, forallb op_wf ops = true -> run_clean rinit ops = true ->
+  let s := rrun rinit ops in
+  owed d s <= r_bal s d /\ holds_C19_custody d (r_bal s d) (r_gauges s) (r_exts s) = true.
+Proof. exact custody_clean. Qed.
+Print Assumptions c19_custody.
+
+(* known finding C19-F2: a swap-fee gauge holding 500 whose fee transfer fails pays the 500 at every
+   epoch; after two epochs the account holds 500 against remainders of 1500 *)
+Theorem c19_custody_swapfee_refuted : exists ops d, forallb op_wf ops = true /\ run_clean rinit ops = false /\
+  let s := rrun rinit ops in
+  r_bal s d < owed d s /\ holds_C19_custody d (r_bal s d) (r_gauges s) (r_exts s) = false.
+Proof.
+  exists [CreateSwap 1 0 86400; Create 1 1000 5 400000 0 129600 1000 true;
+          Begin 10 (mkBenv [] [] []); Begin 50000 (mkBenv [FarmErr; FarmErr] [Ok 500; Err 1] []);
+          Begin 140000 (mkBenv [FarmPlain [(7, 1000000000000000000)]; FarmErr] [Err 1; Err 1] []);
+          Begin 230000 (mkBenv [FarmPlain [(7, 1000000000000000000)]; FarmErr] [Err 1; Err 1] [])], 1.
+  vm_compute. repeat split.
+Qed.
+Print Assumptions c19_custody_swapfee_refuted.
+
+(* known finding C19-F3: six equal lockers, 5*10^18 available on the last day: the program books
+   10 more than it has; a gauge's 1000 in the same denom is left with 990 *)
+Theorem c19_custody_program_refuted : exists ops d, forallb op_wf ops = true /\ run_clean rinit ops = false /\
+  let s := rrun rinit ops in
+  r_bal s d < owed_g d (r_gauges s) /\ holds_C19_custody d (r_bal s d) (r_gauges s) (r_exts s) = false.
+Proof.
+  exists [ExtCreate 0 5 5000000000000000000 1 1 0 5000000000000000000 true; Create 5 1000 3 500000 0 86400 1000 true;
+          Begin 10 (mkBenv [FarmErr] [] [mkXenv 6000000 [(11,1000000,0);(12,1000000,0);(13,1000000,0);(14,1000000,0);(15,1000000,0);(16,1000000,0)]]);
+          Begin 86401 (mkBenv [FarmErr] [] [mkXenv 6000000 [(11,1000000,0);(12,1000000,0);(13,1000000,0);(14,1000000,0);(15,1000000,0);(16,1000000,0)]])], 5.
+  vm_compute. repeat split.
+Qed.
+Print Assumptions c19_custody_program_refuted.
+
 (* epoch timing: a tick triggers at most one epoch and only strictly after its end; after a halt of
    more than two durations the missed epochs are skipped without any distribution *)
 Theorem c19_epoch_timing : forall now e e' r, 0 < e_dur e -> epoch_tick now e = (e', r) ->
@@ -59,6 +170,31 @@ Print Assumptions c19_share_refuted.
 
 (* ---- non-vacuity ---- *)
 Example c19_split_example : split 150 11 = Ok [13; 13; 13; 13; 14; 14; 14; 14; 14; 14; 14].
+Proof. vm_compute. reflexivity. Qed.
+
+(* a clean history with two gauges (one swap-fee), a program and two denoms: gauge 2 lives its
+   whole life (3 epochs of 33, 33, 34), the custody hypotheses hold and the balances cover *)
+Definition c19_example_ops : list gop :=
+  [CreateSwap 1 0 86400; Create 1 100 3 0 0 43200 100 true; ExtCreate 0 3 600 2 1 0 600 true;
+   Begin 10 (mkBenv [] [] []);
+   Begin 20 (mkBenv [FarmErr; FarmPlain [(1, 1000000000000000000); (2, 2000000000000000000)]] [Ok 40; Err 1] [mkXenv 300 [(11, 100, 0); (12, 200, 0)]]);
+   Begin 43300 (mkBenv [FarmPlain [(1, 1000000000000000000)]; FarmPlain [(1, 1000000000000000000); (2, 2000000000000000000)]] [Ok 7; Err 1] [mkXenv 300 [(11, 100, 0); (12, 200, 0)]]);
+   Begin 86500 (mkBenv [FarmPlain [(1, 1000000000000000000)]; FarmPlain [(1, 3000000000000000000)]] [Ok 7; Err 1] [mkXenv 300 [(11, 100, 0); (12, 200, 0)]]);
+   Begin 130000 (mkBenv [FarmPlain [(1, 1000000000000000000)]; FarmErr] [Ok 0; Err 1] [mkXenv 300 [(11, 100, 0); (12, 200, 0)]]);
+   Begin 180000 (mkBenv [FarmPlain [(1, 1000000000000000000)]; FarmErr] [Ok 0; Err 1] [mkXenv 300 [(11, 100, 0); (12, 200, 0)]])].
+Example c19_history_example :
+  let s := rrun rinit c19_example_ops in
+  forallb op_wf c19_example_ops = true /\ run_clean rinit c19_example_ops = true /\
+  map g_distributed (r_gauges s) = [47; 100] /\ map g_triggered (r_gauges s) = [3; 3] /\ map g_active (r_gauges s) = [true; false] /\
+  map x_avail (r_exts s) = [1] /\ map x_active (r_exts s) = [true] /\ r_bal s 1 = 0 /\ owed 1 s = 0 /\ r_bal s 3 = 1 /\ owed 3 s = 1.
+Proof. vm_compute. repeat split. Qed.
+
+Example c19_life_example :
+  fold_left life_step [(5, farm_calc (FarmPlain [(1, 1000000000000000000); (2, 2000000000000000000)]));
+                       (9, farm_calc FarmErr); (10, farm_calc (FarmPlain [(1, 1000000000000000000)]));
+                       (20, farm_calc (FarmPlain [(1, 1000000000000000000); (2, 1000000000000000000)])); (30, farm_calc (FarmPlain [(1, 5)]))]
+            (fresh_gauge 100 3 0 43200 1, 1000, 0)
+  = (mkGauge 100 100 3 3 false 0 43200 false 1, 900, 100).
 Proof. vm_compute. reflexivity. Qed.
 
 Example c19_share_example : farm_rewards 10000000000 [1000000000000000000000; 2000000000000000000000; 7000000000000000000000]
